@@ -289,6 +289,8 @@ func (e *eng) Exec(op []string) string {
 		return errKind(err) + " " + e.changes()
 	case "race": // race <writers> <rounds>: real goroutines through the real handler
 		return raceRun(e, common.Atoi(op[1]), common.Atoi(op[2]))
+	case "race2": // race2 <rounds>: unconditional (password, keys) against conditional writers on one file
+		return race2Run(e, common.Atoi(op[1]))
 	case "crashrun": // crashrun <syscall> <n> : kill a helper at the n-th <syscall> of a rewrite, then re-read
 		return crashRun(e, op[1], common.Atoi(op[2]))
 	}
